@@ -200,6 +200,11 @@ class Run:
                 if not -len(base) <= k < len(base):
                     raise PyExc("IndexError")
                 return base[k]
+            if isinstance(base, (list, tuple, str)) and isinstance(e.slice, ast.Slice) and e.slice.step is None:
+                lo = self.ev(e.slice.lower) if e.slice.lower is not None else None
+                hi = self.ev(e.slice.upper) if e.slice.upper is not None else None
+                if (lo is None or isinstance(lo, int)) and (hi is None or isinstance(hi, int)):
+                    return base[lo:hi]
             raise Unsupported(f"subscript {norm(e)[:40]}")
         if isinstance(e, ast.List):
             return [self.ev(x) for x in e.elts]
